@@ -111,7 +111,7 @@ func strs(l *list.List) []string {
 
 var routes = ev.Register(&ev.P[momentCase]{
 	Name: "paired_accessors_agree",
-	Rule: "generated moments (emphasis: after the December solstice, 23:00-23:59, both solstice days, leap months, odd-hour boundaries); oracle: equality of renderings for an explicit pair table — the lunar date's GetTime* accessors vs its hour object GetTime() and GetTimes()[slot] (31 pairs), the lunar-year object vs the New-Year-based year accessors incl. nine star and Tai Sui (sect 1), deprecated aliases vs replacements (19 pairs + GetBaZi* vs EightChar + Solar.GetXingzuo), default-school accessors vs the explicit school they delegate to (12 pairs + GetYun vs GetYunBySect(…,1), hour-object GetPositionFu vs BySect(2), LunarYear/LunarMonth GetPositionFu vs BySect(2), whole-day defaults of prev/next term); non-trivial: 23:xx, on/after the December solstice, on a solstice day, or in a leap month",
+	Rule: "generated moments (emphasis: after the December solstice, 23:00-23:59, both solstice days, leap months, odd-hour boundaries); oracle: equality of renderings for an explicit pair table — the lunar date's GetTime* accessors vs its hour object GetTime() and GetTimes()[slot] (31 pairs), the lunar-year object vs the New-Year-based year accessors incl. nine star and Tai Sui (sect 1), deprecated aliases vs replacements (19 pairs + GetBaZi* vs EightChar + Solar.GetXingzuo), default-school accessors vs the explicit school they delegate to (12 pairs + GetYun vs GetYunBySect(…,1), hour-object GetPositionFu vs BySect(2), LunarYear/LunarMonth GetPositionFu vs BySect(2), whole-day defaults of prev/next term); the hour object's GetMinHm/GetMaxHm are the exact bounds of the two-hour slot (子 cut at midnight), bracket the moment and decode to the hour pillar's branch; non-trivial: 23:xx, on/after the December solstice, on a solstice day, or in a leap month",
 	Check: func(c momentCase) error {
 		t := c.T
 		l := gen.Solar(t).GetLunar()
